@@ -161,7 +161,8 @@ Proof.
   assert (d = N.of_nat (length (firstn (N.to_nat d) (concat pieces)))) as Hlen.
   { rewrite firstn_length. lia. }
   destruct (d <=? N.of_nat PROBE_MAX)%N.
-  - cbn [out_of is_ok]. split; [|reflexivity]. rewrite PrinterRoundBase.vectored_independent, <- !app_assoc.
+  - rewrite <- Hlen, N.eqb_refl.
+    cbn [out_of is_ok]. split; [|reflexivity]. rewrite PrinterRoundBase.vectored_independent, <- !app_assoc.
     apply decode_cl_output; assumption.
   - rewrite <- Hlen, N.eqb_refl. cbn [out_of is_ok]. split; [|reflexivity]. rewrite <- !app_assoc.
     apply decode_cl_output; assumption.
@@ -218,18 +219,21 @@ Proof.
 Qed.
 
 Lemma with_body_short pieces accepted d :
-  declared_chunked fs = false -> declared_length fs = Some d -> (N.of_nat PROBE_MAX < d)%N ->
+  declared_chunked fs = false -> declared_length fs = Some d ->
   (N.of_nat (length (concat pieces)) < d)%N ->
-  is_ok (with_body (start ++ PCRLF) h (date_line dv) pieces accepted) = false.
+  is_ok (with_body (start ++ PCRLF) h (date_line dv) pieces accepted) = false /\
+  ((d <= N.of_nat PROBE_MAX)%N -> out_of (with_body (start ++ PCRLF) h (date_line dv) pieces accepted) = []).
 Proof.
-  intros Hdc Hdl Hbig Hshort.
+  intros Hdc Hdl Hshort.
   destruct (user_headers_facts dated fs Hwf) as (_ & F2 & F3 & _). fold h in F2, F3.
   unfold with_body. rewrite F2, F3, Hdc, Hdl.
-  destruct (N.leb_spec d (N.of_nat PROBE_MAX)) as [C|_]; [lia|].
   pose proof (take_all_spec (reader_fuel pieces) (N.to_nat d) pieces [] (reader_fuel_measure pieces)) as TA.
   destruct (take_all (reader_fuel pieces) (N.to_nat d) pieces []) as [data r2]. cbn [fst app] in TA. subst data.
-  destruct (N.eqb_spec (N.of_nat (length (firstn (N.to_nat d) (concat pieces)))) d) as [E|E]; [|reflexivity].
-  rewrite firstn_length in E. lia.
+  assert ((N.of_nat (length (firstn (N.to_nat d) (concat pieces))) =? d)%N = false) as E.
+  { apply N.eqb_neq. rewrite firstn_length. lia. }
+  rewrite E. destruct (N.leb_spec d (N.of_nat PROBE_MAX)) as [C|C]; cbn [is_ok out_of].
+  - split; [reflexivity|]. intros _. reflexivity.
+  - split; [reflexivity|]. intros C2. lia.
 Qed.
 
 (* ---- fixed bodies ---- *)
@@ -345,13 +349,41 @@ Qed.
 
 Theorem declared_short_error : forall code reason dated fs dv pieces accepted d,
   ((100 <= code <= 999)%N /\ no_crlf reason = true /\ wf_user_fields fs = true /\ wf_date_value dv = true) ->
-  declared_chunked fs = false -> declared_length fs = Some d -> (N.of_nat PROBE_MAX < d)%N ->
+  declared_chunked fs = false -> declared_length fs = Some d ->
   (N.of_nat (length (concat pieces)) < d)%N ->
   is_ok (write_response code reason (user_headers dated fs) (date_line dv) pieces accepted) = false.
 Proof.
-  intros code reason dated fs dv pieces accepted d (Hc & Hr & Hwf & Hdv) Hdc Hdl Hbig Hshort.
+  intros code reason dated fs dv pieces accepted d (Hc & Hr & Hwf & Hdv) Hdc Hdl Hshort.
   unfold write_response. rewrite (status_line_start code reason Hc).
-  apply (with_body_short (response_start code reason) dated fs dv Hwf pieces accepted d Hdc Hdl Hbig Hshort).
+  apply (with_body_short (response_start code reason) dated fs dv Hwf pieces accepted d Hdc Hdl Hshort).
+Qed.
+
+(* ... and when the declared length is small (at most PROBE_MAX, the body is collected before the head is written)
+   nothing at all reaches the wire *)
+Theorem declared_short_error_small : forall code reason dated fs dv pieces accepted d,
+  ((100 <= code <= 999)%N /\ no_crlf reason = true /\ wf_user_fields fs = true /\ wf_date_value dv = true) ->
+  declared_chunked fs = false -> declared_length fs = Some d -> (d <= N.of_nat PROBE_MAX)%N ->
+  (N.of_nat (length (concat pieces)) < d)%N ->
+  is_ok (write_response code reason (user_headers dated fs) (date_line dv) pieces accepted) = false /\
+  out_of (write_response code reason (user_headers dated fs) (date_line dv) pieces accepted) = [].
+Proof.
+  intros code reason dated fs dv pieces accepted d (Hc & Hr & Hwf & Hdv) Hdc Hdl Hsmall Hshort.
+  unfold write_response. rewrite (status_line_start code reason Hc).
+  destruct (with_body_short (response_start code reason) dated fs dv Hwf pieces accepted d Hdc Hdl Hshort) as [A B].
+  split; [exact A | exact (B Hsmall)].
+Qed.
+
+Theorem request_declared_short_error : forall method uri dated fs dv pieces accepted d,
+  wf_user_fields fs = true ->
+  declared_chunked fs = false -> declared_length fs = Some d ->
+  (N.of_nat (length (concat pieces)) < d)%N ->
+  is_ok (write_request method uri (user_headers dated fs) (date_line dv) pieces accepted) = false /\
+  ((d <= N.of_nat PROBE_MAX)%N ->
+   out_of (write_request method uri (user_headers dated fs) (date_line dv) pieces accepted) = []).
+Proof.
+  intros method uri dated fs dv pieces accepted d Hwf Hdc Hdl Hshort.
+  unfold write_request. rewrite request_line_start.
+  apply (with_body_short (request_start method uri) dated fs dv Hwf pieces accepted d Hdc Hdl Hshort).
 Qed.
 
 Theorem request_roundtrip : forall method uri dated fs dv pieces accepted,
